@@ -323,8 +323,18 @@ func (h *c05Hist) genBody(depth int, inner []string) string {
 			if g.Bool() {
 				h.kinds["try-except"] = true
 				fmt.Fprintf(&sb, "except ZeroDivisionError:\n    _log.append(%d)\n    yield %d\n", h.nid(), h.nid()*10)
+				if g.Chance(1, 3) && h.r.On("c05.hist.bare_raise_after_yield") {
+					// re-raise after having been suspended inside the handler
+					h.kinds["bare-raise-after-yield"] = true
+					sb.WriteString("    raise\n")
+				}
 			}
 			fmt.Fprintf(&sb, "finally:\n    _log.append('f%d')\n", h.nid())
+			if g.Chance(1, 3) && h.r.On("c05.hist.yield_in_finally") {
+				// a finally body that suspends: pending return values / exceptions must survive the suspension
+				h.kinds["yield-in-finally"] = true
+				fmt.Fprintf(&sb, "    yield %d\n    _log.append('g%d')\n", h.nid()*10, h.nid())
+			}
 		case 4:
 			h.kinds["yield-from"] = true
 			id := h.nid()
